@@ -191,6 +191,17 @@ def jf_unconditional(toks, name):
     return ok
 
 
+def call_closure_shape(toks):
+    """call_closure: both limits (arity, 64 frames) are handed to try_handle_error - the function never returns an
+    error to the dispatch loop directly (`return Err(` / a bare `Err(error!(..))`), which would bypass every handler"""
+    o, c = fn_body(toks, "call_closure")
+    t = texts(toks, o, c)
+    n_err = len(find_all_seq(toks, ["error!", "("], o, c))
+    direct = has(t, ["return", "Err", "("]) or has(t, ["Err", "(", "error!"])
+    thrown = has(t, ["self", ".", "try_handle_error", "("])
+    return n_err == 2 and thrown and not direct
+
+
 def unwind_shape(toks, otoks):
     o, c = fn_body(toks, "unwind_stack")
     t = texts(toks, o, c)
@@ -329,6 +340,7 @@ def gen_tryarms(man):
     ret_uncond = jf_unconditional(ct, "emit_return") and jf_unconditional(ct, "return_statement")
     he_mode, innermost, unwind_ok, records = unwind_shape(vt, ot)
     t_sets, v_sets, n_sets, err_placed = raise_sites(vt)
+    cc_ok = call_closure_shape(vt)
     rethrows, resumes = end_finally_shape(vt)
     jf_ok = jump_finally_shape(vt)
     thr_ok = throw_shape(vt)
@@ -363,6 +375,7 @@ def gen_tryarms(man):
         ("gen_vmfail_sets_he", v_sets),
         ("gen_nativefail_sets_he", n_sets),
         ("gen_error_pushed_by_vm_poked_by_native", err_placed),
+        ("gen_call_closure_limits_are_thrown", cc_ok),
     ]
     lines = ["(* GENERATED by translator/translate_c08.py from compiler.rs, vm.rs, object.rs - do not edit *)", ""]
     for name, v in vals:
